@@ -168,7 +168,9 @@ fn tuple_of(cx: &Ctx, vars: &[String]) -> (String, Ty) {
 pub fn tr_block_value(cx: &mut Ctx, b: &Block, expected: Option<&Ty>) -> R<Tr> {
     cx.push();
     cx.value_depth += 1;
+    let saved_prelude = std::mem::take(&mut cx.prelude);
     let r = tr_stmts(cx, &b.stmts, &Cont::Value(expected.cloned()));
+    cx.prelude = saved_prelude;
     cx.value_depth -= 1;
     cx.pop();
     r
